@@ -3,6 +3,8 @@
 //! (temp directories, buildpack.toml, environment, pre-existing output files), runs the executable with a cleared
 //! environment and reports exit status, marker files and what happened to every output path.
 use cnbv::*;
+use std::ffi::{OsStr, OsString};
+use std::os::unix::ffi::OsStrExt;
 use std::os::unix::process::CommandExt;
 use std::path::{Path, PathBuf};
 use std::process::{Command, Stdio};
@@ -73,15 +75,51 @@ fn is_new_sbom(b: &[u8]) -> Option<String> {
 }
 
 const FMTS: [&str; 3] = ["cdx", "spdx", "syft"];
+const VAR_NAMES: [&str; 6] = ["CNB_BUILDPACK_DIR", "CNB_TARGET_OS", "CNB_TARGET_ARCH", "CNB_TARGET_ARCH_VARIANT", "CNB_TARGET_DISTRO_NAME", "CNB_TARGET_DISTRO_VERSION"];
+/// ways of writing the buildpack directory into CNB_BUILDPACK_DIR (`@<kind>`)
+const BP_KINDS: [&str; 9] = ["plain", "space", "uni", "trail", "dotdot", "sym", "rel", "empty", "nonutf8"];
+fn hexs(b: &[u8]) -> String { let mut s = String::with_capacity(b.len() * 2); for x in b { s.push_str(&format!("{x:02x}")); } s }
+fn unhex(h: &str) -> Option<Vec<u8>> {
+    if h.len() % 2 != 0 || !h.bytes().all(|c| c.is_ascii_digit() || (b'a'..=b'f').contains(&c)) { return None; }
+    (0..h.len() / 2).map(|k| u8::from_str_radix(&h[2 * k..2 * k + 2], 16).ok()).collect()
+}
 
 fn run_case(f: &[String]) -> String {
     if f.len() != 9 { return "bad-fields".into(); }
-    let (exe, nargs, desc, vars, ctx, dbeh, bbeh, pre, link) = (&f[0], f[1].parse::<usize>().unwrap(), &f[2], f[3].as_bytes(), &f[4], &f[5], &f[6], &f[7], &f[8]);
+    let (exe, nargs, desc, vars, ctx, dbeh, bbeh, pre, link) = (&f[0], f[1].parse::<usize>().unwrap(), &f[2], &f[3], &f[4], &f[5], &f[6], &f[7], &f[8]);
+    // the environment (field 3): `<bpdir>,<os>,<arch>,<variant>,<distro name>,<distro version>[,+NAME=<hex>…]`; a target
+    // variable is `-` (unset) or `=<hex>` (set to these bytes); the buildpack directory is `-` or `@<kind>` (how the path of the
+    // directory holding buildpack.toml is written, see below)
+    let vt: Vec<&str> = vars.split(',').collect();
+    if vt.len() < 6 { return "bad-fields".into(); }
+    let mut env_vals: Vec<(String, Vec<u8>)> = vec![];
+    for k in 1..vt.len() {
+        let (name, hx) = if k < 6 { if vt[k] == "-" { continue; } match vt[k].strip_prefix('=') { Some(h) => (VAR_NAMES[k].to_string(), h), None => return "bad-fields".into() } }
+            else { match vt[k].strip_prefix('+').and_then(|x| x.split_once('=')) { Some((n, h)) if n.starts_with("CNB_") && !VAR_NAMES.contains(&n) => (n.to_string(), h), _ => return "bad-fields".into() } };
+        match unhex(hx) { Some(b) if !b.contains(&0) => env_vals.push((name, b)), _ => return "bad-fields".into() }
+    }
+    let bpkind = vt[0];
+    if !(bpkind == "-" || BP_KINDS.iter().any(|k| bpkind.strip_prefix('@') == Some(*k))) { return "bad-fields".into(); }
     let tmp = tempfile::Builder::new().prefix("c05-").tempdir().unwrap();
     let t = tmp.path();
-    let (bp, app, layers, plat, out, work) = (t.join("bp"), t.join("app"), t.join("layers"), t.join("plat"), t.join("out"), t.join("work"));
+    // name of the buildpack directory: plain, with a space, non-ASCII, or not UTF-8 at all
+    let bp_name: &OsStr = match bpkind { "@space" => OsStr::new("b p"), "@uni" => OsStr::new("b\u{fc}cher-\u{5305}"), "@nonutf8" => OsStr::from_bytes(b"bp\xff"), _ => OsStr::new("bp") };
+    let (bp, app, layers, plat, out, work) = (t.join(bp_name), t.join("app"), t.join("layers"), t.join("plat"), t.join("out"), t.join("work"));
     for d in [&bp, &app, &layers, &plat, &out, &work] { std::fs::create_dir(d).unwrap(); }
-    std::fs::create_dir(bp.join("bin")).unwrap();
+    // the executables live in <bp>/bin — except for the non-UTF-8 directory, where argv[0] would not be UTF-8 (an assumption
+    // of this property): there they live in a sibling directory
+    let bin_parent = if bpkind == "@nonutf8" { let d = t.join("bpx"); std::fs::create_dir(&d).unwrap(); d } else { bp.clone() };
+    std::fs::create_dir(bin_parent.join("bin")).unwrap();
+    // what CNB_BUILDPACK_DIR is set to
+    let bp_value: Option<OsString> = match bpkind {
+        "-" => None,
+        "@trail" => { let mut v = bp.clone().into_os_string(); v.push("/"); Some(v) }
+        "@dotdot" => Some(bp.join("..").join(bp_name).join(".").into_os_string()),
+        "@sym" => { let l = t.join("bplink"); std::os::unix::fs::symlink(&bp, &l).unwrap(); Some(l.into_os_string()) }
+        "@rel" => Some(Path::new("..").join(bp_name).into_os_string()),
+        "@empty" => Some(OsString::new()),   // the empty path: buildpack.toml is looked up in the working directory
+        _ => Some(bp.clone().into_os_string()),
+    };
     // executable under the requested name
     let name = exe.strip_prefix("other:").unwrap_or(exe);
     // executable LAYOUT on disk (`disk`) and the way it is invoked (`invoke`); only the invoked name may decide the phase.
@@ -93,7 +131,7 @@ fn run_case(f: &[String]) -> String {
     //   invoke: abs (absolute path) | rel (../bp/bin/<name> from the app dir) | dotdot (../bp/./bin/../bin/<name>) |
     //           path (bare name found through $PATH) | arg0 (exec of the real file with argv[0] = <bp>/bin/<name>)
     let (disk, invoke) = link.split_once('+').unwrap_or((link.as_str(), "abs"));
-    let bin = bp.join("bin");
+    let bin = bin_parent.join("bin");
     let exe_path = bin.join(name);
     let place = |dst: &Path| { if std::fs::hard_link(tbp_path(), dst).is_err() { std::fs::copy(tbp_path(), dst).unwrap(); } };
     let link_to = |real: &str, names: &[&str]| { for n in names { if *n != real && std::fs::symlink_metadata(bin.join(n)).is_err() { std::os::unix::fs::symlink(real, bin.join(n)).unwrap(); } } };
@@ -109,7 +147,7 @@ fn run_case(f: &[String]) -> String {
     let rest_ok = "[buildpack]\nid = \"tbp/c05\"\nversion = \"0.0.1\"\n";
     let rest_bad = "[buildpack]\nid = \"tbp/c05\"\n"; // version missing
     let d: Vec<&str> = desc.split(':').collect();
-    let bt = bp.join("buildpack.toml");
+    let bt = if bpkind == "@empty" { app.join("buildpack.toml") } else { bp.join("buildpack.toml") };
     match d[0] {
         "api" => std::fs::write(&bt, format!("api = \"{}\"\n{}", d[1], if d[2] == "ok" { rest_ok } else { rest_bad })).unwrap(),
         "malformed" => std::fs::write(&bt, format!("api = \"zero.ten\"\n{rest_ok}")).unwrap(),
@@ -146,20 +184,18 @@ fn run_case(f: &[String]) -> String {
     let all_args: Vec<String> = if name == "build" || (name != "detect" && nargs == 3) { vec![s(&layers), s(&plat), s(&bpplan), "extra".into()] } else { vec![s(&plat), s(&plan_path), "extra1".into(), "extra2".into()] };
     let mut cmd = match invoke {
         "abs" => Command::new(&exe_path),
-        "rel" => Command::new(format!("../bp/bin/{name}")),
-        "dotdot" => Command::new(format!("../bp/./bin/../bin/{name}")),
+        "rel" => Command::new(Path::new("..").join(bin_parent.file_name().unwrap()).join("bin").join(name)),
+        "dotdot" => Command::new(Path::new("..").join(bin_parent.file_name().unwrap()).join(".").join("bin").join("..").join("bin").join(name)),
         "path" => Command::new(name),
         "arg0" => { let mut c = Command::new(&real_file); c.arg0(&exe_path); c }
         _ => return "bad-fields".into(),
     };
     cmd.args(all_args.iter().take(nargs)).env_clear().current_dir(&app).stdin(Stdio::null()).stdout(Stdio::null()).stderr(Stdio::null());
-    let names = ["CNB_BUILDPACK_DIR", "CNB_TARGET_OS", "CNB_TARGET_ARCH", "CNB_TARGET_ARCH_VARIANT", "CNB_TARGET_DISTRO_NAME", "CNB_TARGET_DISTRO_VERSION"];
-    let values = [s(&bp), "linux".into(), "amd64".into(), "v3".into(), "ubuntu".into(), "24.04".into()];
-    // '1' = set to a usual value, 'e' = set to the empty string (still present), '0' = unset
-    for k in 0..6 { if vars[k] == b'1' { cmd.env(names[k], &values[k]); } else if vars[k] == b'e' && k > 0 { cmd.env(names[k], ""); } }
+    if let Some(v) = &bp_value { cmd.env(VAR_NAMES[0], v); }
+    for (n, v) in &env_vals { cmd.env(n, OsStr::from_bytes(v)); }
     cmd.env("TBP_OUT", &out).env("TBP_DETECT", dbeh).env("TBP_BUILD", bbeh);
     if invoke == "path" { cmd.env("PATH", &bin); }
-    if c[0] == "gone" && (invoke == "rel" || invoke == "dotdot") { return "bad-fields".into(); }
+    if c[0] == "gone" && (invoke == "rel" || invoke == "dotdot" || bpkind == "@rel" || bpkind == "@empty") { return "bad-fields".into(); }
     if c[0] == "gone" {
         // the child removes its own working directory just before exec: getcwd fails in the runtime
         let appc = app.clone();
@@ -203,22 +239,72 @@ fn bbehs66() -> Vec<String> {
     v.push("err".into()); v.push("layererr".into()); v
 }
 
+// ---- the environment dimension: values, not only presence
+type Val = (&'static str, &'static [u8]);   // (label for the evidence, bytes)
+const USUAL: [&[u8]; 5] = [b"linux", b"amd64", b"v3", b"ubuntu", b"24.04"];
+/// CNB_TARGET_OS: the usual ones, the empty string, case / whitespace variants of `windows`, non-ASCII, not UTF-8
+const OS_VALS: &[Val] = &[("linux", b"linux"), ("windows", b"windows"), ("darwin", b"darwin"), ("freebsd", b"freebsd"), ("empty", b""), ("Linux", b"Linux"),
+    ("windows-sp", b"windows "), ("sp-windows", b" windows"), ("Windows", b"Windows"), ("WINDOWS", b"WINDOWS"), ("windows-nl", b"windows\n"), ("win", b"win"),
+    ("windows-amd64", b"windows/amd64"), ("dotless", "w\u{131}ndows".as_bytes()), ("kana", "\u{30a6}\u{30a3}\u{30f3}\u{30c9}\u{30a6}\u{30ba}".as_bytes()), ("star", b"*"),
+    ("nonutf8", b"\xff\xfe"), ("windows-cut", b"windows\xc3")];
+const ARCH_VALS: &[Val] = &[("amd64", b"amd64"), ("arm64", b"arm64"), ("arm", b"arm"), ("empty", b""), ("x86_64", b"x86_64"), ("AMD64", b"AMD64"), ("amd64-sp", b"amd64 "),
+    ("umlaut", "\u{e4}rm".as_bytes()), ("windows", b"windows"), ("nonutf8", b"\x80")];
+const VARIANT_VALS: &[Val] = &[("v3", b"v3"), ("v8", b"v8"), ("v7", b"v7"), ("empty", b""), ("V8", b"V8"), ("umlaut", "\u{fc}".as_bytes()), ("windows", b"windows"), ("nonutf8", b"\xc0\xaf")];
+const DNAME_VALS: &[Val] = &[("ubuntu", b"ubuntu"), ("empty", b""), ("windows", b"windows"), ("Ubuntu", b"Ubuntu"), ("alpine", b"alpine"), ("two-words", b"ubuntu linux"),
+    ("cyrillic", "\u{434}\u{438}\u{441}\u{442}\u{440}\u{43e}".as_bytes()), ("scratch", b"scratch"), ("nonutf8", b"\xfe")];
+const DVER_VALS: &[Val] = &[("24.04", b"24.04"), ("empty", b""), ("22.04", b"22.04"), ("winbuild", b"10.0.20348.2227"), ("rolling", b"rolling"), ("lts", b"24.04 LTS"),
+    ("kanji", "\u{4e8c}\u{5341}\u{56db}".as_bytes()), ("windows", b"windows"), ("nonutf8", b"\xff")];
+fn val_lists() -> [&'static [Val]; 5] { [OS_VALS, ARCH_VALS, VARIANT_VALS, DNAME_VALS, DVER_VALS] }
+/// other `CNB_*` variables a lifecycle sets (the runtime reads none of them), with unusual but legitimate values
+const EXTRA_SETS: &[&[(&str, &[u8])]] = &[
+    &[("CNB_PLATFORM_DIR", b"/platform"), ("CNB_LAYERS_DIR", b"/layers"), ("CNB_BP_PLAN_PATH", b"/tmp/plan.toml"), ("CNB_BUILD_PLAN_PATH", b"/tmp/build plan.toml")],
+    &[("CNB_PLATFORM_DIR", b""), ("CNB_STACK_ID", b"io.buildpacks.stacks.jammy")],
+    &[("CNB_PLATFORM_DIR", b"/does/not/exist"), ("CNB_TARGET_ID", b"windows"), ("CNB_PLATFORM_API", b"0.14")],
+    &[("CNB_TARGET_OS_", b"windows"), ("CNB_TARGET", b"windows/amd64"), ("CNB_TARGET_DISTRO", b"")],
+    &[("CNB_LAYERS_DIR", b"\xff\xfe"), ("CNB_PLATFORM_DIR", "/pl\u{e4}tform dir".as_bytes())],
+    &[("CNB_EXEC_ENV", b"production"), ("CNB_OUTPUT_DIR", b"."), ("CNB_APP_DIR", b"..")],
+];
+fn tok(v: Option<&[u8]>) -> String { match v { None => "-".into(), Some(b) => format!("={}", hexs(b)) } }
+/// the environment field: buildpack-dir kind (`-` / `@kind`) and the five target variables
+fn env6(bp: &str, vals: [Option<&[u8]>; 5]) -> String { let mut t = vec![bp.to_string()]; t.extend(vals.iter().map(|v| tok(*v))); t.join(",") }
+fn with_extras(env: &str, set: &[(&str, &[u8])]) -> String { let mut e = env.to_string(); for (n, v) in set { e.push_str(&format!(",+{n}={}", hexs(v))); } e }
+/// the short notation of the older blocks: one character per variable, `1` = set to the usual value, `e` = set to the empty
+/// string (still present), `0` = unset
+fn pv(p: &str) -> String {
+    let b = p.as_bytes();
+    let mut t = vec![if b[0] == b'0' { "-".to_string() } else { "@plain".to_string() }];
+    for k in 1..6 { t.push(match b[k] { b'1' => tok(Some(USUAL[k - 1])), b'e' => tok(Some(b"")), _ => "-".into() }); }
+    t.join(",")
+}
+/// is variable `k` provided: set, and to something the process sees as text
+fn provided(vars: &str, k: usize) -> bool {
+    let t = vars.split(',').nth(k).unwrap_or("-");
+    if k == 0 { t != "-" && t != "@nonutf8" } else { t.strip_prefix('=').and_then(unhex).map(|b| std::str::from_utf8(&b).is_ok()).unwrap_or(false) }
+}
+
 /// which gate (in the property's sense) is closed, for the evidence distribution
 fn gate_of(exe: &str, nargs: usize, desc: &str, vars: &str) -> &'static str {
-    let v = vars.as_bytes();
     if !(desc.starts_with("api:0.10:")) { return "api"; }
     if exe != "detect" && exe != "build" { return "name"; }
     if (exe == "detect" && nargs != 2) || (exe == "build" && nargs != 3) { return "args"; }
-    if v[0] == b'0' || v[1] == b'0' || v[2] == b'0' || v[4] == b'0' || v[5] == b'0' { return "env"; }
+    if ![0, 1, 2, 4, 5].iter().all(|k| provided(vars, *k)) { return "env"; }
     "open"
 }
 
 fn mk(kind: &str, exe: &str, nargs: usize, desc: &str, vars: &str, ctx: &str, dbeh: &str, bbeh: &str, pre: &str, link: &str) -> Case {
+    let short = vars.len() == 6 && vars.bytes().all(|c| c == b'0' || c == b'1' || c == b'e');
+    let vars: &str = &(if short { pv(vars) } else { vars.to_string() });
     let g = gate_of(exe, nargs, desc, vars);
     let phase_err = ctx != "ok/ok/ok" && !(ctx == "ok/noenv/ok") || desc.ends_with(":bad") || pre.contains('d') || pre.contains("/m/");
     let beh = if exe == "detect" { dbeh.to_string() } else if exe == "build" { bbeh.split(':').next().unwrap().to_string() } else { "-".into() };
+    // the environment for the evidence: which variables are unset / set-but-not-text, whether any value is not the usual one
+    let vt: Vec<&str> = vars.split(',').collect();
+    let unset: String = (0..6).map(|k| if vt[k] == "-" { '0' } else if !provided(vars, k) { 'x' } else { '1' }).collect();
+    let usual = vt[0] == "@plain" && (1..6).all(|k| vt[k] == "-" || vt[k] == tok(Some(USUAL[k - 1]))) && vt.len() == 6;
+    let os_label = OS_VALS.iter().find(|(_, b)| vt[1] == tok(Some(b))).map(|(l, _)| *l).unwrap_or(if vt[1] == "-" { "unset" } else { "other" });
     Case { fields: [exe, &nargs.to_string(), desc, vars, ctx, dbeh, bbeh, pre, link].iter().map(|s| s.to_string()).collect(),
-        tags: vec![("kind".into(), kind.into()), ("exe".into(), exe.split(':').next().unwrap().into()), ("gate".into(), g.into()), ("beh".into(), beh), ("errsrc".into(), u8::from(phase_err).to_string()), ("link".into(), link.into()), ("emptypayload".into(), u8::from((exe == "detect" && dbeh == "passeplan") || (exe == "build" && ["elaunch", "estore", "be.", "le."].iter().any(|x| bbeh.contains(x)))).to_string())],
+        tags: vec![("kind".into(), kind.into()), ("exe".into(), exe.split(':').next().unwrap().into()), ("gate".into(), g.into()), ("beh".into(), beh), ("errsrc".into(), u8::from(phase_err).to_string()), ("link".into(), link.into()), ("emptypayload".into(), u8::from((exe == "detect" && dbeh == "passeplan") || (exe == "build" && ["elaunch", "estore", "be.", "le."].iter().any(|x| bbeh.contains(x)))).to_string()),
+            ("vars".into(), unset), ("os".into(), os_label.into()), ("bpdir".into(), vt[0].trim_start_matches('@').into()), ("usualvalues".into(), u8::from(usual).to_string()), ("extravars".into(), (vt.len() - 6).to_string())],
         nontrivial: g == "open" }
 }
 
@@ -255,6 +341,93 @@ fn generate(tier: &str, seed: u64, emit: &mut dyn FnMut(Case)) {
             emit(mk("layout", exe, nargs, desc, "111111", "ok/ok/ok", "passplan", rep_b, "f/f/v/fff/fff", &format!("{disk}+{inv}")));
         }
     } } }
+    // V. the VALUES of the variables as a dimension, crossed with which variables are set. A requirement may not depend on what
+    //    another variable holds: whatever CNB_TARGET_OS (…) says, a missing mandatory variable closes the gate, and no value closes it.
+    let lists = val_lists();
+    let usual: [Option<&[u8]>; 5] = [Some(USUAL[0]), Some(USUAL[1]), Some(USUAL[2]), Some(USUAL[3]), Some(USUAL[4])];
+    let full_pre = "f/f/v/fff/fff";
+    // `absent` = None: all set; Some(0): buildpack dir unset; Some(k): target variable k unset
+    let with_absent = |mut vals: [Option<&'static [u8]>; 5], absent: Option<usize>| -> String {
+        let bp = if absent == Some(0) { "-" } else { "@plain" };
+        if let Some(k) = absent { if k > 0 { vals[k - 1] = None; } }
+        env6(bp, vals)
+    };
+    let absents: Vec<Option<usize>> = std::iter::once(None).chain((0..6).map(Some)).collect();
+    // V1. every value of every variable x every single variable unset (and none unset) x both phases; the other variables
+    //     at their usual values
+    for exe in ["detect", "build"] { for (j, list) in lists.iter().enumerate() { for (_, v) in list.iter() { for ab in &absents {
+        if j > 0 && *v == USUAL[j] { continue; }   // the usual value of a non-OS variable is in the OS sweep already
+        let mut vals = usual; vals[j] = Some(*v);
+        emit(mk("val1", exe, right_args(exe), "api:0.10:ok", &with_absent(vals, *ab), "ok/ok/ok", "passplan", rep_b, full_pre, "sym"));
+    } } } }
+    // V2. every OS value x every architecture value (variant / distro values rotating), everything set: no value closes a gate
+    for exe in ["detect", "build"] { for (a, (_, os)) in OS_VALS.iter().enumerate() { for (b, (_, arch)) in ARCH_VALS.iter().enumerate() {
+        let vals = [Some(*os), Some(*arch), if (a + b) % 3 == 0 { None } else { Some(VARIANT_VALS[(a + b) % VARIANT_VALS.len()].1) }, Some(DNAME_VALS[(a + 2 * b) % DNAME_VALS.len()].1), Some(DVER_VALS[(2 * a + b) % DVER_VALS.len()].1)];
+        emit(mk("val2", exe, right_args(exe), "api:0.10:ok", &env6("@plain", vals), "ok/ok/ok", "passxplan", "ok:xlaunch,store,bx.spdx,le.cdx", "a/a/a/aaa/aaa", "sym"));
+    } } }
+    // V3. every way of writing the buildpack directory x every single variable unset x two OS values x both phases, and x every
+    //     buildpack.toml class (the descriptor lives where the variable says)
+    for exe in ["detect", "build"] { for bpk in BP_KINDS { for ab in &absents { for os in [&b"linux"[..], &b"windows"[..]] {
+        if *ab == Some(0) && bpk != "plain" { continue; }
+        let mut vals = usual; vals[0] = Some(os);
+        let e = with_absent(vals, *ab);
+        let e = if *ab == Some(0) { e } else { e.replacen("@plain", &format!("@{bpk}"), 1) };
+        emit(mk("bpdir", exe, right_args(exe), "api:0.10:ok", &e, "ok/ok/ok", "passplan", rep_b, full_pre, "sym"));
+    } } } }
+    for exe in EXES { for bpk in BP_KINDS { for desc in DESC_CLASSES { for nargs in [2usize, 3] {
+        emit(mk("bpdir2", exe, nargs, desc, &env6(&format!("@{bpk}"), usual), "ok/ok/ok", "passeplan", "ok:elaunch,estore", full_pre, "symn+rel"));
+    } } } }
+    // V4. other CNB_* variables set to unusual values x every single variable unset x OS in {linux, windows} x both phases
+    for exe in ["detect", "build"] { for set in EXTRA_SETS { for ab in &absents { for os in [&b"linux"[..], &b"windows"[..]] {
+        let mut vals = usual; vals[0] = Some(os);
+        emit(mk("extra", exe, right_args(exe), "api:0.10:ok", &with_extras(&with_absent(vals, *ab), set), "ok/ok/ok", "passplan", rep_b, full_pre, "sym"));
+    } } } }
+    // V5 (thorough). every SET of unset variables (64) x every OS value x both phases (architecture / distro values rotating);
+    //     every value of every non-OS variable x every PAIR of unset variables
+    if thorough {
+        for exe in ["detect", "build"] { for (a, (_, os)) in OS_VALS.iter().enumerate() { for vm in 0..64usize {
+            let vals: [Option<&[u8]>; 5] = [Some(*os), Some(ARCH_VALS[(a + vm) % ARCH_VALS.len()].1), Some(VARIANT_VALS[(a + vm / 2) % VARIANT_VALS.len()].1), Some(DNAME_VALS[(a + vm / 3) % DNAME_VALS.len()].1), Some(DVER_VALS[(a + vm / 5) % DVER_VALS.len()].1)];
+            let mut v2 = vals; for k in 1..6 { if vm >> k & 1 == 0 { v2[k - 1] = None; } }
+            for pre in ["a/a/a/aaa/aaa", full_pre] {
+                emit(mk("valsets", exe, right_args(exe), "api:0.10:ok", &env6(if vm & 1 == 0 { "-" } else { "@plain" }, v2), "ok/ok/ok", "passplan", rep_b, pre, "sym"));
+            }
+        } } }
+        for exe in ["detect", "build"] { for (j, list) in lists.iter().enumerate().skip(1) { for (_, v) in list.iter() { for k1 in 0..6usize { for k2 in (k1 + 1)..6 {
+            let mut vals = usual; vals[j] = Some(*v); vals[0] = Some(b"windows");
+            if k1 > 0 { vals[k1 - 1] = None; } vals[k2 - 1] = None;
+            emit(mk("valpairs", exe, right_args(exe), "api:0.10:ok", &env6(if k1 == 0 { "-" } else { "@plain" }, vals), "ok/ok/ok", "passplan", rep_b, full_pre, "sym"));
+        } } } } }
+    } else {
+        // quick: the pairs of unset variables x the OS values that are some spelling of `windows`, `linux` and the empty string
+        for exe in ["detect", "build"] { for (l, os) in OS_VALS.iter().filter(|(l, _)| l.to_lowercase().contains("win") || *l == "linux" || *l == "empty") { for k1 in 0..6usize { for k2 in (k1 + 1)..6 {
+            let _ = l;
+            let mut vals = usual; vals[0] = Some(*os);
+            if k1 > 0 { vals[k1 - 1] = None; } vals[k2 - 1] = None;
+            emit(mk("valpairs", exe, right_args(exe), "api:0.10:ok", &env6(if k1 == 0 { "-" } else { "@plain" }, vals), "ok/ok/ok", "passplan", rep_b, full_pre, "sym"));
+        } } } }
+    }
+    // V6. random environments: every variable independently unset (1 in 12) or drawn from its value list; random extra variables;
+    //     everything else mostly open, random behaviour and pre-existing state
+    let n_v6 = if thorough { 20000 } else { 1500 };
+    for idx in 0..n_v6 {
+        let mut r = Rng::for_case(seed ^ 0xE5C05, idx);
+        let exe = *r.pick(&["detect", "detect", "build", "build", "other"]);
+        let nargs = if r.chance(9, 10) { right_args(exe) } else { r.below(5) as usize };
+        let desc = if r.chance(9, 10) { "api:0.10:ok" } else { *r.pick(DESCS) };
+        let mut vals: [Option<&[u8]>; 5] = [None; 5];
+        for j in 0..5 { if !r.chance(1, 12) { vals[j] = Some(if r.chance(1, 3) { USUAL[j] } else { r.pick(lists[j]).1 }); } }
+        let cwd_gone = r.chance(1, 20);
+        let bp = if r.chance(1, 8) { "-".to_string() } else { format!("@{}", if cwd_gone { *r.pick(&BP_KINDS[..6]) } else { *r.pick(&BP_KINDS) }) };
+        let mut e = env6(&bp, vals);
+        if r.chance(1, 3) { e = with_extras(&e, EXTRA_SETS[r.below(EXTRA_SETS.len() as u64) as usize]); }
+        let ctx = format!("{}/{}/ok", if cwd_gone { "gone" } else { "ok" }, r.pick(&["ok", "ok", "noenv"]));
+        let pc = |r: &mut Rng| *r.pick(&['a', 'f', 'f']);
+        let three = |r: &mut Rng| (0..3).map(|_| pc(r)).collect::<String>();
+        let pre = format!("{}/{}/{}/{}/{}", pc(&mut r), pc(&mut r), r.pick(&["a", "v", "v"]), three(&mut r), three(&mut r));
+        let bbeh = r.pick(&bbehs18()).clone();
+        let inv = if cwd_gone { *r.pick(&["abs", "path", "arg0"]) } else { *r.pick(&["abs", "abs", "rel", "path", "arg0"]) };
+        emit(mk("valrnd", exe, nargs, desc, &e, &ctx, *r.pick(DBEHS), &bbeh, &pre, &format!("{}+{inv}", r.pick(&["sym", "symn", "realbuild"]))));
+    }
     // B1. all gates open: detect behaviours x pre-existing plan file x optional variable x platform
     for dbeh in DBEHS { for pp in ["a", "f", "d"] { for vars in ["111111", "111011"] { for plat in ["ok", "noenv", "bad"] { for descr in ["api:0.10:ok", "api:0.10:bad"] {
         emit(mk("detect", "detect", 2, descr, vars, &format!("ok/{plat}/ok"), dbeh, "err", &format!("{pp}/a/a/aaa/aaa"), "sym"));
